@@ -548,6 +548,29 @@ class SymBytes:
     def startswith(self, p):
         return self[:len(p)] == p
 
+    def endswith(self, p):
+        return self[len(self) - len(p):] == p if len(p) <= len(self) else False
+
+    def __contains__(self, o):
+        # `x in data`: an octet value, or a contiguous run of octets at some offset
+        if isinstance(o, (int, SymInt)):
+            return bool(sym_or(*[self[i] == o for i in range(len(self.items))])) if self.items else False
+        o = SymBytes.lift(o)
+        n, k = len(self.items), len(o.items)
+        if k > n:
+            return False
+        if k == 0:
+            return True
+        terms = [SymBytes(self.items[i:i + k]).eq_term(o) for i in range(n - k + 1)]
+        return bool(_mk_bool(_simp(z3.Or(*terms))))
+
+    def __buffer__(self, flags):
+        # symbolic octets handed to C code through the buffer protocol (e.g. as the left operand of `in` on real bytes): not modelled - an engine error
+        # (inconclusive), never a TypeError the real code would not see
+        if self.is_concrete():
+            return memoryview(bytes(self.items))
+        raise Unsupported('symbolic bytes reached a C boundary through the buffer protocol')
+
     def ljust(self, width, fill=b' '):
         f = list(bytes(fill))[0]
         return SymBytes(self.items + [f] * max(0, width - len(self.items)), self.mutable)
